@@ -334,9 +334,16 @@ def invoke(model, call, args, kw):
     (`rate(teams=...)`, `predict_win(teams=...)` - the spelling the repository's own tests
     use); which ones is a function of the call's shape, so that a replay makes the same
     choice."""
-    if len(args) == 1 and (len(kw) + len(type(args[0]).__name__) + len(call)) % 3 == 0:
+    style = (len(kw) + len(type(args[0]).__name__) + len(call)) % 3 if len(args) == 1 else -1
+    if style == 0:
         kw = dict(kw, teams=args[0])
         args = ()
+    elif style == 1 and call == "rate" and ("ranks" in kw or "scores" in kw):
+        # ... and one in three passes the outcome positionally: rate(teams, ranks) /
+        # rate(teams, None, scores) - the order the signature documents (tau and limit_sigma
+        # are always named)
+        kw = dict(kw)
+        args = (args[0], kw.pop("ranks", None)) + ((kw.pop("scores"),) if "scores" in kw else ())
     if call == "rate":
         return model.rate(*args, **kw)
     if call == "win":
